@@ -117,6 +117,11 @@ func slRun(maxLevel int, p float64, ops []slOp, probes []string) (m *slModel, er
 }
 
 func slRunRaw(maxLevel int, p float64, ops []slOp, probes []string) (*slModel, error) {
+	return slRunKeep(maxLevel, p, ops, probes, nil)
+}
+
+// slRunKeep is slRunRaw that also hands out the list it built (for the implementation-state search).
+func slRunKeep(maxLevel int, p float64, ops []slOp, probes []string, keep **skiplist.SkipList) (*slModel, error) {
 	grows := 0
 	vrand.Script = func() float64 {
 		if grows > 0 {
@@ -127,6 +132,9 @@ func slRunRaw(maxLevel int, p float64, ops []slOp, probes []string) (*slModel, e
 	}
 	defer func() { vrand.Script = nil }()
 	sl := skiplist.New(maxLevel, p)
+	if keep != nil {
+		*keep = sl
+	}
 	m := &slModel{}
 	for _, o := range ops {
 		switch o.Kind {
@@ -239,7 +247,7 @@ func c17Units(tier string) []Unit {
 	}
 	// exhaustive (no deduplication) over three user keys with one version each
 	exDepth := 6
-	exLevels := []int{1, 2, 3}
+	exLevels := []int{1, 2, 3, 4}
 	if tier == "thorough" {
 		exDepth = 8
 		exLevels = []int{1, 2, 3, 4}
@@ -256,7 +264,116 @@ func c17Units(tier string) []Unit {
 			}
 		}
 	}
+	// explicit-state search deduplicated on the IMPLEMENTATION state (implState: every field of every node reachable
+	// from the list, links included): hidden state - a stale level, a cached hint, a link to an unlinked node - keeps
+	// states apart, so longer sequences over more keys are reachable than without any deduplication
+	implKeys := []string{"a@1", "b@1", "c@1", "d@1", "e@1"}
+	implProbes := append(append([]string{}, implKeys...), " @1", "c@9", "zz@3")
+	implLevels := []int{3, 4}
+	implDepth, implCap := 12, 100000
+	if tier == "thorough" {
+		implLevels = []int{2, 3, 4}
+		implDepth, implCap = 16, 2000000
+	}
+	for _, ml := range implLevels {
+		for _, fk := range implKeys {
+			ml, fk := ml, fk
+			units = append(units, Unit{Name: fmt.Sprintf("impl-state/keys=5/maxLevel=%d/depth=%d/first=%s", ml, implDepth, fk), Weight: implDepth + 3, Run: func(c *Ctx) {
+				c17ImplSearch(c, ml, implDepth, implCap, implKeys, implProbes, fk)
+			}})
+		}
+	}
 	return units
+}
+
+// c17ImplSearch: breadth-first search over Set/Delete sequences starting with Set(first, any height); a state is the
+// implState of the real list; the successor of a state is computed by replaying its shortest path plus one operation
+// on a fresh list; after every transition every query is compared with the model.
+func c17ImplSearch(c *Ctx, maxLevel, depth, capStates int, keys, probes []string, first string) {
+	if c.Replay != nil {
+		var rc struct {
+			MaxLevel int    `json:"maxLevel"`
+			Ops      []slOp `json:"ops"`
+		}
+		jsonUnmarshal(c.Replay.Case, &rc)
+		fmt.Printf("maxLevel=%d ops=%v\n", rc.MaxLevel, rc.Ops)
+		if _, err := slRun(rc.MaxLevel, 0.5, rc.Ops, probes); err != nil {
+			fmt.Println(err)
+			c.Violation(err.(*OracleErr).Sig, err.Error(), nil, nil)
+		} else {
+			fmt.Println("every query agrees with the model")
+		}
+		return
+	}
+	run := func(ops []slOp) (string, *slModel, error) {
+		var sl *skiplist.SkipList
+		var m *slModel
+		err := guard("c17", func() error {
+			var e error
+			m, e = slRunKeep(maxLevel, 0.5, ops, probes, &sl)
+			return e
+		})
+		if err != nil {
+			return "", m, err
+		}
+		return implState(sl), m, nil
+	}
+	seen := map[string]bool{}
+	var frontier [][]slOp
+	for h := 1; h <= maxLevel; h++ {
+		ops := []slOp{{Kind: "S", K: first, V: "p", H: h}}
+		st, _, err := run(ops)
+		c.Res.Executions++
+		if err != nil {
+			oe := err.(*OracleErr)
+			c.Violation(oe.Sig, fmt.Sprintf("maxLevel=%d: %s", maxLevel, oe.Detail), nil, map[string]any{"maxLevel": maxLevel, "ops": ops})
+			return
+		}
+		if !seen[st] {
+			seen[st] = true
+			frontier = append(frontier, ops)
+		}
+	}
+	for d := 1; d < depth && len(frontier) > 0; d++ {
+		var next [][]slOp
+		for _, path := range frontier {
+			if c.TimeUp() || len(seen) >= capStates {
+				c.Res.Exhaustive = false
+				c.Cap(fmt.Sprintf("impl-state search stopped at depth %d with %d states (cap %d or deadline)", d, len(seen), capStates))
+				c.Res.States += int64(len(seen))
+				return
+			}
+			var alpha []slOp
+			for _, k := range keys {
+				alpha = append(alpha, slOp{Kind: "D", K: k})
+				for h := 1; h <= maxLevel; h++ {
+					alpha = append(alpha, slOp{Kind: "S", K: k, V: "p", H: h})
+				}
+			}
+			for _, o := range alpha {
+				ops := append(append([]slOp{}, path...), o)
+				st, m, err := run(ops)
+				c.Res.Executions++
+				c.Res.Transitions++
+				c.Res.Evaluations += int64(len(probes) * (len(probes) + 2))
+				if err != nil {
+					oe := err.(*OracleErr)
+					c.Violation(oe.Sig, fmt.Sprintf("maxLevel=%d: %s", maxLevel, oe.Detail), nil, map[string]any{"maxLevel": maxLevel, "ops": ops})
+					return
+				}
+				if !seen[st] {
+					seen[st] = true
+					next = append(next, ops)
+					if len(m.ents) >= 2 {
+						c.NT(st)
+					}
+				}
+			}
+		}
+		frontier = next
+	}
+	c.Res.States += int64(len(seen))
+	c.Sample(map[string]any{"maxLevel": maxLevel, "first": first, "implementation_states": len(seen), "depth": depth})
 }
 
 // c17Exhaustive enumerates every sequence up to the depth WITHOUT state deduplication (a canonical state of
